@@ -63,6 +63,11 @@ impl Check for C01 {
                 let short: String = e.chars().take(40).collect();
                 if e.starts_with("ref-dynerror") {
                     labels.add("ref-dynerror");
+                    if let Ok(d) = std::env::var("SAVE_REJECTED") {
+                        let _ = std::fs::create_dir_all(&d);
+                        let h = vcore::hash64(&printed.text);
+                        let _ = std::fs::write(format!("{}/dyn_{:x}.sy", d, h), format!("// {}\n{}", e, printed.text));
+                    }
                 }
                 return Verdict::Discard(short.split(':').next().unwrap_or("ref").to_string());
             }
@@ -122,6 +127,10 @@ impl Check for C01 {
 
     fn simplify_at(&self, case: &ProgCase, idx: usize) -> Step<ProgCase> {
         shrink_step(case, idx)
+    }
+
+    fn sample(&self, case: &ProgCase) -> serde_json::Value {
+        sample_of(case)
     }
 
     fn rule(&self) -> String {
